@@ -651,6 +651,9 @@ func c17Exec(op []string) string {
 	if out, ok := c17IdentExec(op); ok {
 		return out
 	}
+	if out, ok := c17RaceExec(op); ok {
+		return out
+	}
 	unhex := func(s string) []byte {
 		if s == "-" {
 			return nil
@@ -731,6 +734,9 @@ func c17Judge(op []string, out string) string {
 	}
 	if op[0] == "c17.ident" || op[0] == "c17.callers" {
 		return c17IdentJudge(op, out)
+	}
+	if op[0] == "c17.race" {
+		return c17RaceJudge(op, out)
 	}
 	if (op[0] == "c17.req" && len(op) == 4) || (op[0] == "c17.hist" && len(op) == 5) || ((op[0] == "c17.req2" || op[0] == "c17.two" || op[0] == "c17.call") && len(op) == 6) ||
 		(op[0] == "c17.home" && len(op) == 3) {
